@@ -179,6 +179,20 @@ def check_env(ctx):
     must_pass_before_success(ctx, "T1-env-write", "write(2)", ww, None,
                              lambda e: is_call(e, "ldb_write"),
                              "ldb_wfile_write goes through the write(2) loop")
+    # the write(2) loop advances by what write(2) reported (a short write is not a complete one)
+    lw = ctx.fn("ldb_write", ENV)
+    wr = [(b, i, e) for (b, i, e) in lw.events("asg") if isinstance(strip_casts(e["rhs"]), dict) and strip_casts(e["rhs"]).get("k") == "call"
+          and strip_casts(e["rhs"]).get("f") == "write"]
+    ctx.require(len(wr) == 1, "ldb_write: write(2) call not found")
+    res = key(wr[0][2]["lhs"])
+    adv = sorted((key(e["lhs"]), e["op"], key(e["rhs"])) for b, i, e in lw.events("asg") if e["op"] in ("+=", "-="))
+    ctx.check(adv == [("buf", "+=", res), ("cnt", "+=", res), ("len", "-=", res)], "T1-env-write", "advance-by-result", lw.name, lw.loc,
+              "buffer, remaining length and count advance by the result of write(2)", "the write loop advances by %s" % adv)
+    g_lw = xgraph(ctx.P, lw)
+    for b, i, e in lw.events("asg"):
+        if e["op"] in ("+=", "-="):
+            ctx.check(holds(g_lw.must_at(b, i), (">=", res, "0")), "T1-env-write", "advance-after-error-check@%s" % e["l"].split(":")[1], lw.name,
+                      site(lw, e), "the loop advances only after a non-negative result", "the write loop advances on a failed write")
     cl = ctx.fn("ldb_wfile_close", ENV)
     ordered_before_success(ctx, "T1-env-close", "flush,close", cl,
                            [lambda e: is_call(e, "ldb_wfile_flush"), lambda e: is_call(e, "close")],
